@@ -87,13 +87,15 @@ def sink_prefixes(nm):
         'num': r'/(?P<%s>\d+)' % nm['id'],
         'rest': '/%s/(?P<%s>.+)' % (L, nm['rest']),
         'oth': '/' + nm['oth'],
+        # a named group that need not take part in the match: it still arrives as a keyword argument (None)
+        'opt': r'/zz(?:/(?P<opt>\w+))?',
     }
 
 
 def paths(nm):
     L, O, F = nm['lit'], nm['oth'], nm['file']
     return ['/', '/' + L, '/%s/' % L, '/%sb' % L, '/%s/5' % L, '/%s/%s' % (L, F), '/%s/5/6' % L,
-            '/5', '/57k', '/' + O, '/%s/%s' % (O, F), '/%s/%s' % (O, nm['only0']), '/zz/y']
+            '/5', '/57k', '/' + O, '/%s/%s' % (O, F), '/%s/%s' % (O, nm['only0']), '/zz/y', '/zz']
 
 
 # ---------------------------------------------------------------------------
@@ -116,6 +118,13 @@ def m_sink_match(key, nm, path):
         while i < len(path) and path[i] in '0123456789':
             i += 1
         return {nm['id']: path[1:i]} if i > 1 else None
+    if key == 'opt':
+        if not path.startswith('/zz'):
+            return None
+        j = 4
+        while path[3:4] == '/' and j < len(path) and (path[j].isalnum() or path[j] == '_'):
+            j += 1
+        return {'opt': path[4:j] if path[3:4] == '/' and j > 4 else None}
     if key == 'rest':
         pre = L + '/'
         if path.startswith(pre) and len(path) > len(pre):
@@ -440,7 +449,7 @@ def alphabets():
         for kind in ('X', 'PX', 'P', 'N'):
             full.append(('S', t, kind, True))
             full.append(('S', t, kind, False))
-    for key in ('root', 'lit', 'litc', 'num', 'rest', 'oth'):
+    for key in ('root', 'lit', 'litc', 'num', 'rest', 'oth', 'opt'):
         full.append(('K', key))
     for p in ('lit', 'oth'):
         for d in (0, 1):
@@ -452,7 +461,7 @@ def alphabets():
            ('R', 'f', ('GET', 'OPTIONS')), ('R', 'f', ()), ('R', 'f', ('POST',)),
            ('S', 'lit', 'X', True), ('S', 'lit', 'PX', True), ('S', 'lit', 'P', True),
            ('S', 'litf', 'X', True), ('S', 'litf', 'N', True), ('S', 'lit', 'PX', False)]
-    mid += [('K', key) for key in ('root', 'lit', 'litc', 'num', 'rest', 'oth')]
+    mid += [('K', key) for key in ('root', 'lit', 'litc', 'num', 'rest', 'oth', 'opt')]
     mid += [('F', 'lit', 0, False), ('F', 'lit', 1, False), ('F', 'oth', 0, False), ('F', 'oth', 1, False),
             ('F', 'oth', 1, True), ('B', 'sink')]
 
